@@ -120,11 +120,39 @@ def regen():
                 else:
                     errs[name] = p.stderr.strip() or "translator failed"
                 continue
+            if name == "Constants" and "NOTE V3_MAX_SIZE" in p.stdout and "ASSUMED" in p.stdout.split("NOTE V3_MAX_SIZE")[1].split("\n")[0]:
+                # msgMaxSize is fixed by no property: when the source pattern is gone, take the value the code puts on the wire
+                m = _measure_v3_max_size()
+                if m is not None:
+                    p = subprocess.run(cmd, stdout=subprocess.PIPE, stderr=subprocess.PIPE, text=True, env=dict(os.environ, GS_MEASURED_V3_MAX_SIZE=str(m)))
             for ln in p.stdout.splitlines():
                 if ln.startswith("(* NOTE "):
                     REGEN_NOTES.append("translator %s: %s" % (name, ln[3:-3]))
             write_if_changed(os.path.join(COQ, "Gen", name + ".v"), p.stdout)
     return errs
+
+
+_MEASURED = {}
+
+
+def _measure_v3_max_size():
+    """msgMaxSize as the real encoder emits it (codec harness, `emit3` of a trivial message)."""
+    key = "v3max"
+    if key in _MEASURED:
+        return _MEASURED[key]
+    val = None
+    try:
+        ok, log, exe = cargo_build_harness("release", _from_regen=True)
+        if ok:
+            out = run_lines(exe, ["emit3 1 000 - 0 0 - - - plain:-:get:1:-"], shards=1)[0]
+            if out.startswith("OK "):
+                sys.path.insert(0, os.path.join(VERIF, "harness", "py"))
+                import ber
+                val = ber.s_message(bytes.fromhex(out.split(" ")[1]))["max_size"]
+    except Exception:
+        val = None
+    _MEASURED[key] = val
+    return val
 
 
 def coq_makefile():
@@ -346,7 +374,7 @@ def constant(name, default=None):
     return int(m.group(1)) if m else default
 
 
-def cargo_build_harness(profile):
+def cargo_build_harness(profile, _from_regen=False):
     """Generate and build the codec harness (harness/rs) against /repo's working tree.  Returns (ok, log, exe)."""
     import importlib.util
     spec = importlib.util.spec_from_file_location("gen_harness", os.path.join(VERIF, "harness/rs/gen_harness.py"))
